@@ -35,7 +35,9 @@ func runC01(r *Run) {
 			sc.hostileReplies(i)
 		}
 		sc.ownIDReplies()
-		sc.probe()
+		// (a sender that is not read-only, with an ID the security extension does not accept for its address, is
+		// still a sender of a well-formed query)
+		sc.probeFrom(i%2 == 0)
 		r.Result.TracesValidated++
 		if i < 3 {
 			r.sample(append([]string{}, sc.events[:min(len(sc.events), 6)]...))
@@ -549,13 +551,15 @@ func (r *Run) c01Maintenance(i int) {
 }
 
 // Afterwards: a well-formed ping from a fresh address is answered and the API returns.
-func (sc *srvScen) probe() {
+func (sc *srvScen) probe() { sc.probeFrom(true) }
+
+func (sc *srvScen) probeFrom(ro bool) {
 	if sc.dead {
 		return
 	}
 	src := sc.freshSrc(0)
 	id := sc.r.randID()
-	q := &qspec{y: "q", q: "ping", t: []byte("pb"), hasA: true, id: id, ro: true}
+	q := &qspec{y: "q", q: "ping", t: []byte("pb"), hasA: true, id: id, ro: ro}
 	w0 := sc.conn.numWrites()
 	sc.conn.inject(q.bval().enc(), src)
 	must := !sc.o.passive
